@@ -22,8 +22,21 @@ type Probe struct {
 // Config is a coverer configuration.
 type Config struct{ Min, Max, Mod, Cells int }
 
+// coverer returns the configured RegionCoverer. For half of the configurations
+// (decided by the configuration itself, so replay is exact) the object has
+// already produced coverings of an unrelated region: a RegionCoverer is an
+// options value that users keep and reuse, and its answers must not depend on
+// what it covered before.
 func (c Config) coverer() *s2.RegionCoverer {
-	return &s2.RegionCoverer{MinLevel: c.Min, MaxLevel: c.Max, LevelMod: c.Mod, MaxCells: c.Cells}
+	rc := &s2.RegionCoverer{MinLevel: c.Min, MaxLevel: c.Max, LevelMod: c.Mod, MaxCells: c.Cells}
+	if (c.Min+c.Max+c.Cells+c.Mod)%2 == 0 {
+		// (a leaf cell: with MinLevel up to 30 anything larger could need 10^13 cells)
+		decoy := s2.CellFromCellID(s2.CellIDFromFacePosLevel(3, 0x123456789abcdef, 30))
+		rc.Covering(decoy)
+		rc.InteriorCovering(decoy)
+		rc.FastCovering(decoy)
+	}
+	return rc
 }
 
 func (c Config) mod() int {
